@@ -60,34 +60,37 @@ func init() {
 		},
 		MinObs: func(tier string) map[string]int64 {
 			m := map[string]int64{
-				"hub_cases_single_producer":      2500,
-				"hub_cases_multi_producer":       2500,
-				"hub_listener_sequences_checked": 50000,
-				"hub_joins_with_history":         40000,
-				"hub_history_events_replayed":    1000000,
-				"hub_deletes_clearing_history":   50000,
-				"hub_ring_wraps":                 100000,
-				"hub_failing_dropped_live":       4000,
-				"hub_failing_in_replay":          6000,
-				"hub_removed_listeners_checked":  12000,
-				"hub_dispatch_without_listeners": 4000,
-				"close_cases":                    1152,
-				"close_real_events_delivered":    1000,
-				"close_post_close_drained":       20000,
-				"close_buffered_at_close_full":   150,
-				"close_between_events":           400,
-				"close_harness_sequences":        2500,
-				"sync_after_250_ok":              2400,
-				"slow_cases":                     144,
-				"slow_listener_dropped":          100,
-				"healthy_cases":                  1200,
-				"healthy_real_events_delivered":  100000,
-				"healthy_v2_delete_events":       8000,
-				"hist0_cases":                    48,
-				"shutdown_cases":                 192,
-				"shutdown_ops_after_cancel":      30000,
-				"evaluations":                    20000,
-				"distinct_nontrivial":            4000,
+				"hub_cases_single_producer":          2500,
+				"e2e_histories":                      400,
+				"e2e_cap_evictions":                  500,
+				"e2e_remove_straight_after_delivery": 800,
+				"hub_cases_multi_producer":           2500,
+				"hub_listener_sequences_checked":     50000,
+				"hub_joins_with_history":             40000,
+				"hub_history_events_replayed":        1000000,
+				"hub_deletes_clearing_history":       50000,
+				"hub_ring_wraps":                     100000,
+				"hub_failing_dropped_live":           4000,
+				"hub_failing_in_replay":              6000,
+				"hub_removed_listeners_checked":      12000,
+				"hub_dispatch_without_listeners":     4000,
+				"close_cases":                        1152,
+				"close_real_events_delivered":        1000,
+				"close_post_close_drained":           20000,
+				"close_buffered_at_close_full":       150,
+				"close_between_events":               400,
+				"close_harness_sequences":            2500,
+				"sync_after_250_ok":                  2400,
+				"slow_cases":                         144,
+				"slow_listener_dropped":              100,
+				"healthy_cases":                      1200,
+				"healthy_real_events_delivered":      100000,
+				"healthy_v2_delete_events":           8000,
+				"hist0_cases":                        48,
+				"shutdown_cases":                     192,
+				"shutdown_ops_after_cancel":          30000,
+				"evaluations":                        20000,
+				"distinct_nontrivial":                4000,
 			}
 			if tier == "thorough" {
 				m["ws_cases"] = 240
@@ -122,6 +125,9 @@ func run(c *fw.Ctx) {
 	}
 	if want("hist0") {
 		c.Cases("hist0", c.N(48, 480), func(i int, r *fw.Rand) { hist0Case(c, i, r) })
+	}
+	if want("e2e") {
+		c.Cases("e2e", c.N(480, 9600), func(i int, r *fw.Rand) { e2eCase(c, i, r) })
 	}
 	if (!c.Quick() || os.Getenv("C15_STREAMS") != "") && want("ws") {
 		wsCases(c)
